@@ -66,6 +66,9 @@ pub enum Profile {
   /// nested object with a non-stored, nullable, indexed+fast property:
   /// compaction cannot rebuild it and must refuse
   UnsafeNested,
+  /// basic + a nullable multi-valued text field, a stored non-fast keyword
+  /// field, a nullable multi-valued i64 field and a nullable f64 field
+  Rich,
 }
 
 impl Profile {
@@ -127,6 +130,20 @@ pub fn schema(profile: Profile) -> Schema {
   }
   match profile {
     Profile::Basic => {}
+    Profile::Rich => {
+      v["text_fields"].as_array_mut().unwrap().push(json!(
+        {"name": "title", "analyzer": "default", "stored": true, "indexed": true, "nullable": true}
+      ));
+      v["keyword_fields"].as_array_mut().unwrap().push(json!(
+        {"name": "cat", "stored": true, "indexed": true, "fast": false, "nullable": true}
+      ));
+      v["numeric_fields"].as_array_mut().unwrap().push(json!(
+        {"name": "m", "i64": true, "fast": true, "stored": true, "nullable": true}
+      ));
+      v["numeric_fields"].as_array_mut().unwrap().push(json!(
+        {"name": "price", "i64": false, "fast": true, "stored": true, "nullable": true}
+      ));
+    }
     Profile::Unsafe => {
       v["text_fields"].as_array_mut().unwrap().push(json!(
         {"name": "hid", "analyzer": "default", "stored": false, "indexed": true}
@@ -207,6 +224,86 @@ pub fn make_doc(profile: Profile, id: &str, ver: u64) -> Document {
   fields.insert("n".into(), json!(ver as i64));
   match profile {
     Profile::Basic => {}
+    Profile::Rich => {
+      match nextr() % 6 {
+        0 => {}
+        1 => {
+          fields.insert("title".into(), Value::Null);
+        }
+        2 => {
+          fields.insert("title".into(), json!(format!("Title zeta t{}", ver % 5)));
+        }
+        3 => {
+          fields.insert("title".into(), json!(["one", "two words zeta"]));
+        }
+        4 => {
+          fields.insert("title".into(), json!(["solo"]));
+        }
+        _ => {
+          fields.insert("title".into(), json!([]));
+        }
+      }
+      match nextr() % 5 {
+        0 => {}
+        1 => {
+          fields.insert("cat".into(), Value::Null);
+        }
+        2 => {
+          fields.insert("cat".into(), json!("News"));
+        }
+        3 => {
+          fields.insert("cat".into(), json!(["a", "B", "news"]));
+        }
+        _ => {
+          fields.insert("cat".into(), json!(["sport"]));
+        }
+      }
+      match nextr() % 7 {
+        0 => {}
+        1 => {
+          fields.insert("m".into(), Value::Null);
+        }
+        2 => {
+          fields.insert("m".into(), json!((ver % 9) as i64));
+        }
+        3 => {
+          fields.insert("m".into(), json!([1, 2, 3]));
+        }
+        4 => {
+          fields.insert("m".into(), json!([]));
+        }
+        5 => {
+          fields.insert("m".into(), json!([-7]));
+        }
+        _ => {
+          fields.insert("m".into(), json!([9007199254740993i64, -(ver as i64)]));
+        }
+      }
+      match nextr() % 8 {
+        0 => {}
+        1 => {
+          fields.insert("price".into(), Value::Null);
+        }
+        2 => {
+          fields.insert("price".into(), json!(4));
+        }
+        3 => {
+          fields.insert("price".into(), json!(2.5));
+        }
+        4 => {
+          fields.insert("price".into(), json!(3.0));
+        }
+        5 => {
+          fields.insert("price".into(), json!([1.5, -0.25]));
+        }
+        6 => {
+          fields.insert("price".into(), json!(1e15));
+        }
+        _ => {
+          fields.insert("price".into(), json!([1e-7, (ver % 4) as i64]));
+        }
+      }
+    }
     Profile::Unsafe => {
       fields.insert("hid".into(), json!(format!("secret{} hid{}", nextr() % 3, ver)));
     }
@@ -288,6 +385,21 @@ pub fn stored_projection(profile: Profile, doc: &Document) -> Value {
         }
       }
       "hid" => {}
+      "title" | "cat" | "m" | "price" if profile == Profile::Rich => {
+        // nullable fields read back as an empty list when null; f64 fields
+        // read back as floats whatever the JSON number looked like
+        let vals: Vec<Value> = match v {
+          Value::Array(a) => a.clone(),
+          Value::Null => Vec::new(),
+          other => vec![other.clone()],
+        };
+        let vals: Vec<Value> = if k == "price" { vals.iter().map(|x| json!(x.as_f64().unwrap_or(0.0))).collect() } else { vals };
+        if vals.len() == 1 {
+          out.insert(k.clone(), vals.into_iter().next().unwrap());
+        } else {
+          out.insert(k.clone(), Value::Array(vals));
+        }
+      }
       "items" if profile.nested() => {
         if let Some(p) = project_nested(v, 0) {
           out.insert(k.clone(), p);
